@@ -591,3 +591,25 @@ Proof. pose proof (accepts_total d). destruct (accepts d) as [[]| |]; auto. cong
 
 Theorem unknown_key_not_accepted d : Unknown KSpec d -> accepts d = Err.
 Proof. intro U. unfold accepts. rewrite (unknown_key_rejects _ U). reflexivity. Qed.
+
+(* ---------------- documents, with the duplicate-member check of the YAML layer ---------------- *)
+Theorem accepts_strict_iff_WF d :
+  accepts_strict d = Ok tt <-> ~ HasDup d /\ exists s, spec_of_doc d = Ok s /\ WF s.
+Proof.
+  unfold accepts_strict, strict_of_doc. rewrite <- has_dup_iff. destruct (has_dup d) eqn:E.
+  - cbn. split; [discriminate|]. intros [H _]. exfalso. apply H. reflexivity.
+  - fold (accepts d). rewrite accepts_iff_WF. split; [intro H; split; [discriminate|exact H]|intros [_ H]; exact H].
+Qed.
+
+Theorem accepts_strict_total d : accepts_strict d <> Panic.
+Proof. unfold accepts_strict. apply bind_np; [apply strict_of_doc_total|apply validate_total]. Qed.
+
+Theorem accepts_strict_cases d : accepts_strict d = Ok tt \/ accepts_strict d = Err.
+Proof. pose proof (accepts_strict_total d). destruct (accepts_strict d) as [[]| |]; auto. congruence. Qed.
+
+(* two members with the same name in ANY object of the tree: rejected with an error, whatever else the document says *)
+Theorem duplicate_key_rejects d : HasDup d -> accepts_strict d = Err.
+Proof. intro H. unfold accepts_strict. rewrite (duplicate_key_undecodable _ H). reflexivity. Qed.
+
+Theorem accepts_strict_without_dup d : ~ HasDup d -> accepts_strict d = accepts d.
+Proof. intro H. unfold accepts_strict, accepts. rewrite (strict_without_dup _ H). reflexivity. Qed.
